@@ -116,7 +116,7 @@ def algebraic_root(s, q):
     if not s.is_concrete:
         S.axioms.append(zterm(s.re) >= 0)
     S.roots.append((s, q, res))
-    S.notes.append('algebraic symbol %s = (%s)^(%s)' % (rho, s.re, q))
+    S.notes.append('algebraic symbol %s = (.)^(%s)' % (rho, q))
     return res
 
 
